@@ -430,3 +430,6 @@ CHECKS["C08"] = {
         "wall-clock budgets are excluded, as the property says",
     ],
 }
+
+# functional conformance: the GE phenotype EQUALS GEMapFn!MapForm evaluated by TLC on the same genes
+CHECKS["C07"]["drivers"].append({"module": "harness.drv_gemap", "trace": "Trace_GEMap"})
